@@ -41,6 +41,13 @@ not covered by the property).  params: a reference to a structure with >= 1 flat
 structure (required); any other params (structure without properties, alias such as LSPAny) ->
 Option<LSPAny>; no params -> Option<LSPNull>.  result: `base null` -> LSPNull; else the field type rule
 above with optional = false.
+
+Gates: #[cfg(feature = "proposed")] iff `proposed` for structs, their fields, enums, their variants, aliases and
+message structs (rule gate); response structs follow their request (rule gate-response); the two serde impls of
+an integer enumeration carry the enumeration's gate and a match arm naming a gated variant carries the
+variant's gate (rule gate-companion: they are part of the proposed item); everything else (support items,
+envelope fields, alias variants, use declarations) is ungated.  A general closure rule (no ungated item names a
+gated type) is deliberately NOT applied: see gated_type_count().
 """
 from __future__ import annotations
 
@@ -316,7 +323,7 @@ class Checker:
         raise AnalysisError(f"{P_LSPJSON}: type kind {k!r} at {path} is outside the modelled discipline")
 
     # ------------------------------------------------------------------------------ structs
-    def check_fields(self, st, props: list, who: str, exact: bool = True, gate_of=None):
+    def check_fields(self, st, props: list, who: str):
         """Obligations 1-3 (+ field gates) for one struct against a property list.
         `who` is the construct prefix (struct=Name / literal=path)."""
         ctx = self.ctx
@@ -345,13 +352,11 @@ class Checker:
             ctx.ok("field-names", sample={"struct": st.name, "field": f.name, "serde": p.name})
             self.fields_compared += 1
             self.check_field(st, f, p.name, p.type, p.optional, who)
-            want_gate = bool(p.raw.get("proposed")) if gate_of is None else gate_of(p)
-            self.gate(f.attrs, want_gate, f"{who} field={p.name}", f.line, f"property {st.name}.{p.name}")
-        if exact:
-            for sn, f in by_name.items():
-                ctx.check(sn in pnames, "field-names", f"{who} extra={sn}",
-                          f"field {f.name} of {st.name} serialises as {sn!r}, which is not a property of the metamodel "
-                          f"definition", P_LIBRS, f.line)
+            self.gate(f.attrs, bool(p.raw.get("proposed")), f"{who} field={p.name}", f.line, f"property {st.name}.{p.name}")
+        for sn, f in by_name.items():
+            ctx.check(sn in pnames, "field-names", f"{who} extra={sn}",
+                      f"field {f.name} of {st.name} serialises as {sn!r}, which is not a property of the metamodel "
+                      f"definition", P_LIBRS, f.line)
         return by_name
 
     def check_field(self, st, f, pname, ptype, optional, who):
@@ -410,7 +415,7 @@ class Checker:
     def variant_serde_name(self, v) -> str:
         return v.attrs.rename if v.attrs.rename is not None else v.name
 
-    def string_enum(self, en, values: list, who: str, proposed_of=None):
+    def string_enum(self, en, values: list, who: str, check_gates: bool = False):
         """values: [(value, proposed)] -- multiset of serde discriminants == multiset of values."""
         ctx = self.ctx
         self.serde_keys(en.attrs, set(), who, en.line)
@@ -434,7 +439,7 @@ class Checker:
                       f"serialise as it" + (" (serde rejects duplicate discriminants at run time: the later one is "
                                             "unreachable on input)" if len(vs) > 1 else ""),
                       P_LIBRS, vs[0].line if vs else en.line, sample={"enum": en.name, "value": val})
-            if proposed_of is not None:
+            if check_gates:
                 for v, prop in zip(vs, want[val]):
                     self.gate(v.attrs, prop, f"{who} value={val}", v.line, f"enumeration value {en.name}.{v.name}")
         for val, vs in got.items():
@@ -483,7 +488,7 @@ class Checker:
             self.im_used.add(id(im))
             ctx.fn(f"lib.rs:impl {im.name}")
             need = self.gated(en.attrs)
-            ctx.check(self.gated(im.attrs) == need, "gate-closure", impl_id(im),
+            ctx.check(self.gated(im.attrs) == need, "gate-companion", impl_id(im),
                       (f"impl {im.name} names the feature-gated enum {name} but is not gated itself: without --features "
                        f"proposed the crate does not compile" if need else
                        f"impl {im.name} is feature-gated but enum {name} is not: without the feature {name} has no serde "
@@ -519,7 +524,7 @@ class Checker:
                 if v is None:
                     continue
                 need = self.gated(v.attrs) and not self.gated(im.attrs)
-                ctx.check(self.gated(arm.attrs) == need, "gate-closure",
+                ctx.check(self.gated(arm.attrs) == need, "gate-companion",
                           f"{impl_id(im)} arm={vname}",
                           (f"match arm names the feature-gated variant {name}::{vname} but is not gated: without "
                            f"--features proposed the crate does not compile" if need else
@@ -551,9 +556,8 @@ class Checker:
                 raise AnalysisError(f"{P_LIBRS}:{arm.line}: impl {im.name}: arm `{arm.pat_text} => {arm.expr_text}` "
                                     f"is not `{name}::V => serializer.serialize_i32(N)`")
             val = -val if em.group(1) else val
-            if pm.group(2) in tab:
-                raise AnalysisError(f"{P_LIBRS}:{arm.line}: impl {im.name}: variant {pm.group(2)} matched twice")
-            tab[pm.group(2)] = val
+            # a repeated pattern is legal Rust (the first arm wins); the table-size check reports it
+            tab.setdefault(pm.group(2), val)
             arms.append((pm.group(2), val, arm))
         return tab, arms
 
@@ -594,7 +598,7 @@ class Checker:
             base = e["type"]["name"]
             vals = [i["value"] for i in e["values"]]
             if base == "string" and all(isinstance(v, str) for v in vals):
-                self.string_enum(en, [(i["value"], bool(i.get("proposed"))) for i in e["values"]], who, proposed_of=True)
+                self.string_enum(en, [(i["value"], bool(i.get("proposed"))) for i in e["values"]], who, check_gates=True)
             elif base in ("integer", "uinteger") and all(isinstance(v, int) and not isinstance(v, bool) for v in vals):
                 self.int_enum(en, e, who)
             else:
@@ -768,7 +772,7 @@ class Checker:
         self.check_field(st, f, pname, t, optional, who)
         self.gate(f.attrs, False, f"{who} field={pname}", f.line, f"envelope field {st.name}.{pname}")
 
-    def envelope(self, sname, who, fields: list, exact: bool, proposed: bool, gate_rule: str = "gate"):
+    def envelope(self, sname, who, fields: list, exact: bool, proposed: bool, gate_rule: str = "gate", what_of: str = ""):
         ctx = self.ctx
         st = self.structs.get(sname)
         if st is None:
@@ -789,7 +793,7 @@ class Checker:
         for f in st.fields:
             self.serde_keys(f.attrs, MODELLED_SERDE_FIELD, f"{who} field={f.name}", f.line)
         self.gate(st.attrs, proposed, who, st.line,
-                  f"message struct {sname} of a proposed request" if gate_rule != "gate" else f"message struct {sname}",
+                  f"response struct {sname} (its request {what_of})" if gate_rule != "gate" else f"message struct {sname}",
                   rule=gate_rule)
         for pname, t, opt in fields:
             self.raw_field(st, who, pname, t, opt)
@@ -851,7 +855,7 @@ class Checker:
             res = msg.get("result")
             if res is not None:
                 fields.append(("result", REF("LSPNull") if is_null(res) else res, False))
-            self.envelope(sname, f"struct={sname}", fields, False, proposed, gate_rule="gate-response")
+            self.envelope(sname, f"struct={sname}", fields, False, proposed, gate_rule="gate-response", what_of=m)
         for msg in mm.notifications:
             not_methods.append(msg["method"])
             pt, popt = self.params_rule(msg)
@@ -877,37 +881,18 @@ class Checker:
             ctx.check(id(im) in self.im_used, "no-extra-item", impl_id(im),
                       f"impl {im.name} does not belong to an integer enumeration of the metamodel", P_LIBRS, im.line)
 
-    def closure(self):
-        """An ungated item must not name a gated type (else the crate does not build without the feature)."""
-        ctx = self.ctx
-        gated_types = {n for n, it in list(self.structs.items()) + list(self.enums.items()) + list(self.types.items())
-                       if self.gated(it.attrs)}
+    def gated_type_count(self):
+        """Number of feature-gated type items (vacuity floor for the gate rules).
 
-        def chk(construct, tys, line, what):
-            names = set()
-            for t in tys:
-                ty_names(t, names)
-            bad = sorted(names & gated_types)
-            ctx.check(not bad, "gate-closure", construct,
-                      f"{what} is not feature-gated but names the gated type(s) {', '.join(bad)}: without --features "
-                      f"proposed the crate does not compile", P_LIBRS, line, detail={"gated_types": bad})
-
-        for st in self.structs.values():
-            if self.gated(st.attrs):
-                continue
-            for f in st.fields:
-                if not self.gated(f.attrs):
-                    chk(f"struct={st.name} field={self.field_serde_name(st, f)}", [f.ty], f.line, f"field {st.name}.{f.name}")
-        for en in self.enums.values():
-            if self.gated(en.attrs):
-                continue
-            for v in en.variants:
-                if v.payload and not self.gated(v.attrs):
-                    chk(f"enum={en.name} variant={v.name}", list(v.payload), v.line, f"variant {en.name}::{v.name}")
-        for ta in self.types.values():
-            if not self.gated(ta.attrs):
-                chk(f"alias={ta.name}", [ta.ty], ta.line, f"type alias {ta.name}")
-        return len(gated_types)
+        A general closure rule ("an ungated item never names a gated type") was built first and then REMOVED:
+        it demands more than C07 states.  The metamodel itself has non-proposed properties that name proposed
+        types (TextDocumentEdit.edits -> SnippetTextEdit, TextDocumentItem.languageId -> LanguageKind); gating
+        those fields would violate "proposed items, and only those, are feature-gated".  What remains are the
+        rules whose subject is a proposed item itself: gate (definitions, properties, values, aliases, message
+        structs), gate-response (the response struct of a proposed request) and gate-companion (the serde impls
+        of a proposed integer enumeration and the match arms of a proposed value)."""
+        return len({n for n, it in list(self.structs.items()) + list(self.enums.items()) + list(self.types.items())
+                    if self.gated(it.attrs)})
 
 
 def run(ctx: Ctx):
@@ -932,7 +917,7 @@ def run(ctx: Ctx):
             c.gate(c.enums[n].attrs, False, f"enum={n}", c.enums[n].line, f"method enum {n}")
     c.literals()
     c.nothing_extra()
-    n_gated = c.closure()
+    n_gated = c.gated_type_count()
 
     ctx.floor("structures compared", n_struct, 380)
     ctx.floor("fields compared", c.fields_compared, 1000)
